@@ -45,6 +45,85 @@ pub fn resolves(doc: &CVal, loc: &str) -> bool {
   true
 }
 
+/// Like `resolves`, for documents whose keys may contain '/': the crate does not escape keys in locations, so a
+/// location resolves if SOME way of joining consecutive segments into keys leads to a node.
+pub fn resolves_joined(doc: &CVal, loc: &str) -> bool {
+  fn go(cur: &CVal, segs: &[&str]) -> bool {
+    if segs.is_empty() {
+      return true;
+    }
+    match cur {
+      CVal::Map(m) => (1..=segs.len()).any(|n| {
+        let key = segs[..n].join("/");
+        m.iter().any(|(k, v)| matches!(k, CVal::Text(s) if *s == key) && go(v, &segs[n..]))
+      }),
+      CVal::Array(a) => match segs[0].parse::<usize>() {
+        Ok(i) if i < a.len() => go(&a[i], &segs[1..]),
+        _ => false,
+      },
+      _ => false,
+    }
+  }
+  if loc.is_empty() {
+    return true;
+  }
+  if !loc.starts_with('/') {
+    return false;
+  }
+  let segs: Vec<&str> = loc[1..].split('/').collect();
+  go(doc, &segs)
+}
+
+/// (schema, document) pairs with '/' inside map keys: 7 map shapes x maps of two / three entries over 8 keys
+fn slash_key_pairs() -> Vec<(String, CVal)> {
+  let t = |s: &str| CVal::Text(s.to_string());
+  let keys = ["a/c", "b", "a", "c", "x/y", "z", "/", "a/"];
+  let schemas: [(&str, u8); 7] = [
+    ("root = { \"a/c\" : int , b : int }\n", 0),
+    ("root = { * tstr => int }\n", 0),
+    ("root = { \"a/c\" : int , * tstr => int }\n", 0),
+    ("root = { outer : { \"x/y\" : int , z : int } }\n", 1),
+    ("root = { * tstr => { * tstr => int } }\n", 2),
+    ("root = { \"a/c\" : int , ? b : int }\n", 0),
+    ("root = { \"a/c\" : [ * int ] , b : [ * int ] , ? \"x/y\" : [ * int ] }\n", 3),
+  ];
+  let mut v = vec![];
+  for (text, shape) in schemas {
+    let leaf = |good: bool| -> CVal {
+      match (shape, good) {
+        (3, true) => CVal::Array(vec![CVal::Int(1)]),
+        (3, false) => CVal::Array(vec![CVal::Int(1), t("x")]),
+        (_, true) => CVal::Int(1),
+        (_, false) => t("x"),
+      }
+    };
+    let mut maps: Vec<CVal> = vec![];
+    for (i, k1) in keys.iter().enumerate() {
+      for (j, k2) in keys.iter().enumerate() {
+        if i == j {
+          continue;
+        }
+        for bits in 0..4u8 {
+          maps.push(CVal::Map(vec![(t(k1), leaf(bits & 1 == 0)), (t(k2), leaf(bits & 2 == 0))]));
+        }
+        let k3 = keys[(i + j) % keys.len()];
+        if k3 != *k1 && k3 != *k2 {
+          maps.push(CVal::Map(vec![(t(k1), leaf(true)), (t(k2), leaf(true)), (t(k3), leaf(false))]));
+        }
+      }
+    }
+    for (n, m) in maps.iter().enumerate() {
+      let doc = match shape {
+        1 => CVal::Map(vec![(t("outer"), m.clone())]),
+        2 => CVal::Map(vec![(t("p/q"), m.clone()), (t("r"), maps[(n * 7 + 3) % maps.len()].clone())]),
+        _ => m.clone(),
+      };
+      v.push((text.to_string(), doc));
+    }
+  }
+  v
+}
+
 fn keys_ok(v: &CVal) -> bool {
   match v {
     CVal::Map(m) => m.iter().all(|(k, x)| matches!(k, CVal::Text(s) if !s.contains('/')) && keys_ok(x)),
@@ -78,6 +157,15 @@ pub fn check_json(schema: &str, doc: &CVal) -> Result<V, String> {
 }
 
 pub fn replay(_ctx: &Ctx, case: &J) -> Result<(), String> {
+  if case["check"].as_str() == Some("worker_history") {
+    let calls_: Vec<(String, String, Vec<u8>)> = case["calls"]
+      .as_array()
+      .ok_or("no calls")?
+      .iter()
+      .map(|c| (c[0].as_str().unwrap_or("").to_string(), c[1].as_str().unwrap_or("").to_string(), cbor::unhex(c[2].as_str().unwrap_or(""))))
+      .collect();
+    return worker_history(&calls_).map_err(|(m, _)| m);
+  }
   let schema = case["schema"].as_str().ok_or("no schema")?;
   match case["check"].as_str().unwrap_or("") {
     "faithful_json" | "regression" => {
@@ -87,6 +175,18 @@ pub fn replay(_ctx: &Ctx, case: &J) -> Result<(), String> {
       let v: serde_json::Value = serde_json::from_str(jtxt).map_err(|e| e.to_string())?;
       let doc = from_serde(&v);
       check_json(schema, &doc).map(|_| ())
+    }
+    "slash_keys" => {
+      let jtxt = case["json"].as_str().ok_or("no json")?;
+      let v: serde_json::Value = serde_json::from_str(jtxt).map_err(|e| e.to_string())?;
+      let doc = from_serde(&v);
+      match calls::validate_json_local(schema, jtxt, None) {
+        V::Invalid(l) => match l.iter().find(|(loc, _)| !resolves_joined(&doc, loc)) {
+          Some((loc, reason)) => Err(format!("error location {:?} does not lead to a node of the document (reason: {})", loc, reason)),
+          None => Ok(()),
+        },
+        _ => Ok(()),
+      }
     }
     "fault_kinds" => {
       let kind = case["kind"].as_str().unwrap_or("");
@@ -103,6 +203,42 @@ pub fn replay(_ctx: &Ctx, case: &J) -> Result<(), String> {
     }
     other => Err(format!("unknown check {}", other)),
   }
+}
+
+/// One self-contained history: the calls in order in ONE new worker process (one thread, so thread-local and static
+/// state accumulates), then each call alone in a new worker process of its own; every result must be the same.
+/// A pure function of `calls` (no state of the harness process is involved), so a failure shrinks and replays.
+fn worker_history(calls_: &[(String, String, Vec<u8>)]) -> Result<(), (String, usize)> {
+  calls::reset_worker();
+  let together: Vec<V> = calls_.iter().map(|(k, s, d)| calls::worker_call(k, s, d)).collect();
+  for (i, (k, s, d)) in calls_.iter().enumerate() {
+    if matches!(together[i], V::Abort(_) | V::Hang) {
+      continue;
+    }
+    calls::reset_worker();
+    let alone = calls::worker_call(k, s, d);
+    if matches!(alone, V::Abort(_) | V::Hang) {
+      continue;
+    }
+    if alone != together[i] {
+      calls::reset_worker();
+      return Err((
+        format!(
+          "result depends on the calls made before it in the same process: call #{} ({} validation, schema {:?}, document {}): alone in a new process {} ; after the {} earlier calls {}",
+          i,
+          k,
+          s,
+          if k == "cbor" { cbor::hex(d) } else { String::from_utf8_lossy(d).to_string() },
+          alone.brief(),
+          i,
+          together[i].brief()
+        ),
+        i,
+      ));
+    }
+  }
+  calls::reset_worker();
+  Ok(())
 }
 
 fn from_serde(v: &serde_json::Value) -> CVal {
@@ -132,7 +268,7 @@ pub fn run(ctx: &Ctx) {
      as malformed; an immediately repeated call returns the identical result (ordered (location, reason) list). \
      (fault_kinds) malformed schema / malformed document / non-conforming document map to three different error kinds, \
      for JSON and CBOR. (history) 96 cases are evaluated in order, then again in shuffled order on 8 threads at once: \
-     identical results. (fresh_process) results obtained after thousands of other calls equal the results of a freshly \
+     identical results. (slash_keys) 7 map shapes x 2-3 entry maps over 8 keys of which 4 contain '/', exhaustively: every reported location leads to a node under some joining of its segments. (worker_history) a history of up to 28 calls (4 generated schemas, .regexp schemas also respelled with .pcre / .iregexp, shuffled) run in one new worker process and each call alone in its own new process must agree call by call. (fresh_process) results obtained after thousands of other calls equal the results of a freshly \
      started process. Non-trivial: a failing validation with >= 1 error located below the root (faithful), any case of the \
      other sub-checks; distinct (schema, document).",
   );
@@ -283,6 +419,87 @@ pub fn run(ctx: &Ctx) {
       let key = (&w.1, &w.2);
       if st.nontrivial(&key) {
         st.sample(&key, || json!({"schema": w.1, "validator": if w.0 { "cbor" } else { "json" }, "result": baseline[i].class(), "threads": 8}));
+      }
+    }
+    Ok(())
+  });
+
+  // keys that contain '/': locations are built by appending "/key", so a location must still lead to a node of the
+  // document under some joining of its segments (generated documents above never have '/' in keys)
+  let sk = slash_key_pairs();
+  vcore::sweep(ctx, "slash_keys", &sk, |(schema, doc), st| {
+    st.eval();
+    let jtxt = jsonw::to_json(doc);
+    let r = calls::validate_json_local(schema, &jtxt, None);
+    if let V::Invalid(l) = &r {
+      if l.is_empty() {
+        return Err(Fail::new("Err(Validation(list)) with an empty list".to_string(), json!({"check": "slash_keys", "schema": schema, "json": jtxt})));
+      }
+      for (loc, reason) in l {
+        if !resolves_joined(doc, loc) {
+          return Err(Fail::new(
+            format!("error location {:?} does not lead to a node of the document {} under any reading of '/' in keys (reason: {}; schema {:?})", loc, jtxt, reason, schema),
+            json!({"check": "slash_keys", "schema": schema, "json": jtxt}),
+          ));
+        }
+      }
+      let key = (schema, &jtxt);
+      if st.nontrivial(&key) {
+        st.sample(&key, || json!({"schema": schema, "json": jtxt, "locations": l.iter().map(|x| x.0.clone()).collect::<Vec<_>>()}));
+      }
+    } else if let V::DocErr(e) = &r {
+      return Err(Fail::new(format!("a well-formed JSON document was reported as malformed: {}", e), json!({"check": "slash_keys", "schema": schema, "json": jtxt})));
+    }
+    st.count(r.class());
+    Ok(())
+  });
+
+  // self-contained histories in worker processes (decisive form of the two checks around it: nothing depends on what
+  // the harness process did before). Schemas that use .regexp get twins spelled with .pcre / .iregexp so that one
+  // history holds the same pattern text under several operators.
+  search(ctx, "worker_history", ctx.tier.pick(48, 480), 1200, |t: &mut Tape, st: &mut Stats| {
+    let mut calls_: Vec<(String, String, Vec<u8>)> = vec![];
+    for i in 0..4 {
+      let cborm = i == 3;
+      let case = gen_case(t, if cborm { &oc } else { &o }, if cborm { Mode::Cbor } else { Mode::Json }, 4);
+      let mut texts = vec![case.text.clone()];
+      if case.text.contains(".regexp") {
+        texts.push(case.text.replace(".regexp", ".pcre"));
+        texts.push(case.text.replace(".regexp", ".iregexp"));
+        texts.push(case.text.clone());
+      }
+      for text in &texts {
+        for (doc, _) in &case.docs {
+          if cborm {
+            if crate::c02::in_cbor_model(doc) {
+              calls_.push(("cbor".into(), text.clone(), cbor::encode(doc)));
+            }
+          } else if jsonw::is_json_model(doc) {
+            calls_.push(("json".into(), text.clone(), jsonw::to_json(doc).into_bytes()));
+          }
+        }
+      }
+    }
+    // order of the history is part of the case
+    for i in (1..calls_.len()).rev() {
+      let j = t.below(i + 1);
+      calls_.swap(i, j);
+    }
+    calls_.truncate(28);
+    st.evals_n(calls_.len() as u64);
+    if let Err((msg, _)) = worker_history(&calls_) {
+      return Err(Fail::new(
+        msg,
+        json!({"check": "worker_history", "calls": calls_.iter().map(|(k, s, d)| json!([k, s, cbor::hex(d)])).collect::<Vec<_>>()}),
+      ));
+    }
+    if calls_.iter().any(|c| c.1.contains(".pcre")) {
+      st.count("history_with_one_pattern_under_several_operators");
+    }
+    for c in calls_.iter().take(2) {
+      let key = (&c.1, &c.2);
+      if st.nontrivial(&key) {
+        st.sample(&key, || json!({"schema": c.1, "validator": c.0, "history_length": calls_.len()}));
       }
     }
     Ok(())
